@@ -308,7 +308,7 @@ def docs_do_not_alter_type(rep):
 
 # documented item, its doc-less twin, and for every documented NAMED field the key its comment block must sit in front of
 DOC_TWINS = [('DD1', 'DN1', [('da {0} {{b}}', '"a-b"'), ('db', 'b'), ('dc', 'c'), ('dd', 'd'), ('df', 'type')]),
-             ('DD2', 'DN2', [('fa {1}', 'x'), ('fb', '"y-y"')]), ('DD3', 'DN3', [('fa', 'x')]), ('DD4', 'DN4', [])]
+             ('DD2', 'DN2', [('fa {1}', 'x'), ('fb', '"y-y"')]), ('DD3', 'DN3', [('fa', 'x')]), ('DD4', 'DN4', []), ('DD5', 'DN5', [('da', 'a')])]
 
 
 def doc_twins(rep):
@@ -328,7 +328,17 @@ def doc_twins(rep):
         def h(ctx):
             r = tyres.Resolver(['T'])
             m = tyres.machine(ctx, r)
-            return {(ty, meth): list(m.call(f'<{ty}<T> as TS>::{meth}', []).cs) for ty in (dd, dn) for meth in ('inline', 'decl')}
+            out_ = {(ty, meth): list(m.call(f'<{ty}<T> as TS>::{meth}', []).cs) for ty in (dd, dn) for meth in ('inline', 'decl')}
+            # the container's documentation: `const DOCS` of the derive-generated impl (absent = the trait's default None)
+            for ty in (dd, dn):
+                key = f"const <impl at src/lib.rs:{TG['corpus'][ty]['line']}:"
+                ck = [k for k in m.fns if k.startswith(key) and k.endswith('>::DOCS')]
+                if ck:
+                    v = m.exec_fn(m.fns[ck[0]], [])
+                    out_[(ty, 'DOCS')] = tyres.show_rope(models2.deref_all(m, v.fields[0]).cs) if getattr(v, 'disc', 0) == 1 else None
+                else:
+                    out_[(ty, 'DOCS')] = None
+            return out_
         try:
             res = ex.run(h)
         except (Unsupported, Panic) as e:
@@ -349,6 +359,10 @@ def doc_twins(rep):
             if why is None and re.sub(r'\n/\*\*.*?\*/\n', '', tyres.show_rope(o_[(dd, 'decl')]), flags=re.S).replace(dd, 'X') != \
                     tyres.show_rope(o_[(dn, 'decl')]).replace(dn, 'X'):
                 why = 'decl() of the documented item differs from its twin beyond the comment blocks'
+            if why is None and o_[(dn, 'DOCS')] is not None:
+                why = f'a type without documentation reports DOCS = {o_[(dn, "DOCS")]!r}'
+            if why is None and not re.fullmatch(r'/\*\*\n \*\s?cdoc\n \*/\n', o_[(dd, 'DOCS')] or ''):
+                why = f'the container documentation `cdoc` is not reported as one comment block: DOCS = {o_[(dd, "DOCS")]!r}'
             for mark, key in fields:
                 if why is None and not re.search(r'\n/\*\*\n \*\s?' + re.escape(mark) + r'\n \*/\n' + re.escape(key) + r'\??: ', with_docs):
                     why = f'the documentation `{mark}` is not one comment block immediately in front of the property {key}'
